@@ -49,5 +49,20 @@ check("C19", "exploration",
       "includes, are checked call by call against a model of the used set (exactly-once, search order, error propagation).",
       "Trusted: hook H3b (first_parse_input_size), the python model of use(). Cyclic includes are not generated.",
       "differential execution (file vs string) + model-checked call histories with a logging callback, under ASan", "DESIGN.md section 5 C19")
+check("C02", "exploration",
+      "2.5k/300k generated programs over the property's construct list (plus templates aimed at each optimizer pass: loop-variable captures, "
+      "counter modification, references in blocks, constant conditions, fold failures, non-trailing returns, bare identifier/constant "
+      "statements, unused results, declaration fusion) run on two fresh engines in one ASan process - default pipeline vs identity optimizer - "
+      "and stdout, result type+value, error class+reason and effects on harness-owned C++ objects are compared; non-triviality (trees differ) "
+      "and the census of optimised node kinds are measured.",
+      "Trusted: the identity-optimizer engine as reference (same parser/evaluator code), ASan with detect_stack_use_after_return for values outliving optimised constructs.",
+      "differential execution (optimised vs unoptimised configuration of the same engine) under ASan", "DESIGN.md section 5 C02")
+check("C08", "exploration",
+      "2.5k/200k cases: generated functions whose bodies build and mutate values from literals (all literal kinds incl. foldable booleans, "
+      "interpolation, inline vectors/maps/ranges) are each called 3-6 times in a seeded interleaving, alternately from source and by "
+      "re-evaluating a stored parse tree; execution i must equal execution 1 (result, type, output, error class); parse trees must print "
+      "identically before and after; parameter-assigning functions are called with foldable constant arguments.",
+      "Trusted: equality of first and later executions as oracle (no absolute expectation).", 
+      "history oracle over repeated evaluations of the same code, under ASan", "DESIGN.md section 5 C08")
 for _p in ["C%02d" % i for i in range(2, 21) if "C%02d" % i not in CHECKS]:
     NA[_p] = "check not implemented yet in this revision (work in progress, see DESIGN.md); nothing is claimed"
